@@ -102,7 +102,7 @@ def check(chk: Check) -> None:
             first = p.events.index(runs[0])
             before = None
             for e in p.events:
-                if e.kind == 'store_attr' and e.attr == 'lineno' and freeze(e.obj) == ('attr', selft, 'lex'):
+                if e.kind == 'store_attr' and e.attr == 'lineno' and freeze(e.obj) == common.lexer_term(F, selft):
                     if is_const(freeze(e.value)):
                         reset_nodes.extend(ast.walk(e.node))      # the statement that performs the reset (possibly in a helper)
                     if p.events.index(e) < first:
